@@ -127,6 +127,7 @@ func tokenSet(p *an.Prog, info *types.Info, cond ast.Expr) ([]string, bool) {
 }
 
 func runC04(c *an.Ctx) {
+	c04roles(c)
 	c04ladder(c)
 	c04lexerOps(c)
 	c04sign(c)
@@ -199,21 +200,53 @@ func c04ladder(c *an.Ctx) {
 			}
 		}
 		c.Check(okOperands, "C04.ladder", key+"/operands", f.Pos(), "both operands are parsed by "+lv.operand, fmt.Sprintf("%s parses its operands with %v instead of twice %s: the precedence ladder is broken", lv.fn, operandCalls, lv.operand))
-		// constructor and left nesting: left = newX(…, left, right, endtoken)
-		okCtor := false
-		ast.Inspect(loop.Body, func(n ast.Node) bool {
-			call, ok := n.(*ast.CallExpr)
-			if !ok || an.CalleeName(info, call) != lv.ctor || len(call.Args) != 5 {
-				return true
+		// constructor and left nesting: acc = newX(…, acc, rhs, op) with acc the expression the function returns,
+		// op the token the loop condition tests and rhs a next-level operand parsed inside the loop
+		var accObj, opObj types.Object
+		an.InspectOwn(f, func(n ast.Node) bool {
+			if ret, ok := n.(*ast.ReturnStmt); ok && len(ret.Results) == 2 {
+				if id, ok := an.Unparen(ret.Results[0]).(*ast.Ident); ok {
+					accObj = an.ObjOf(info, id)
+				}
 			}
-			if an.Str(call.Args[2]) == "left" && an.Str(call.Args[3]) == "right" && an.Str(call.Args[4]) == "endtoken" {
-				// and the result is assigned back to left
-				for _, enc := range an.EnclosingStmts(f, call) {
-					if as, ok := enc.(*ast.AssignStmt); ok && an.Str(as.Lhs[0]) == "left" {
-						okCtor = true
+			return true
+		})
+		ast.Inspect(loop.Cond, func(n ast.Node) bool {
+			if sel, ok := n.(*ast.SelectorExpr); ok && sel.Sel.Name == "typ" {
+				if id, ok := an.Unparen(sel.X).(*ast.Ident); ok {
+					opObj = an.ObjOf(info, id)
+				}
+			}
+			return true
+		})
+		// variables defined inside the loop body from the operand parser
+		rhsVars := map[types.Object]bool{}
+		ast.Inspect(loop.Body, func(n ast.Node) bool {
+			if as, ok := n.(*ast.AssignStmt); ok && len(as.Rhs) == 1 && len(as.Lhs) == 2 {
+				if call, ok := an.Unparen(as.Rhs[0]).(*ast.CallExpr); ok && an.CalleeName(info, call) == lv.operand {
+					if id, ok := as.Lhs[0].(*ast.Ident); ok {
+						rhsVars[an.ObjOf(info, id)] = true
 					}
 				}
 			}
+			return true
+		})
+		isObj := func(e ast.Expr, o types.Object) bool {
+			id, ok := an.Unparen(e).(*ast.Ident)
+			return ok && o != nil && an.ObjOf(info, id) == o
+		}
+		okCtor := false
+		ast.Inspect(loop.Body, func(n ast.Node) bool {
+			an.Assigns(n, func(lhs, rhs ast.Expr, _ token.Token) {
+				call, ok := an.Unparen(rhs).(*ast.CallExpr)
+				if rhs == nil || !ok || an.CalleeName(info, call) != lv.ctor || len(call.Args) != 5 || !isObj(lhs, accObj) {
+					return
+				}
+				rid, isId := an.Unparen(call.Args[3]).(*ast.Ident)
+				if isObj(call.Args[2], accObj) && isId && rhsVars[an.ObjOf(info, rid)] && isObj(call.Args[4], opObj) {
+					okCtor = true
+				}
+			})
 			return true
 		})
 		c.Check(okCtor, "C04.ladder", key+"/left-assoc", loop.Pos(), "operators of this level nest to the left and build "+lv.ctor, lv.fn+" does not build `left = "+lv.ctor+"(…, left, right, operator)`: operators of one level no longer associate to the left (or build the wrong node)")
@@ -237,15 +270,48 @@ func c04ladder(c *an.Ctx) {
 			}
 			return true
 		})
+		// newTernaryExpr(…, cond, then, else): cond from the logical level, then/else from two recursive parses in
+		// that order, under a test of the operator token against itemTernary
+		defCall := func(e ast.Expr) (string, token.Pos) {
+			id, ok := an.Unparen(e).(*ast.Ident)
+			if !ok {
+				return "", token.NoPos
+			}
+			o := an.ObjOf(info, id)
+			name, pos := "", token.NoPos
+			an.InspectOwn(f, func(n ast.Node) bool {
+				if as, ok := n.(*ast.AssignStmt); ok && len(as.Rhs) == 1 && len(as.Lhs) == 2 {
+					if l, ok := as.Lhs[0].(*ast.Ident); ok && an.ObjOf(info, l) == o {
+						if call, ok := an.Unparen(as.Rhs[0]).(*ast.CallExpr); ok {
+							name, pos = an.CalleeName(info, call), call.Pos()
+						}
+					}
+				}
+				return true
+			})
+			return name, pos
+		}
 		tern := false
 		an.InspectOwn(f, func(n ast.Node) bool {
-			if is, ok := n.(*ast.IfStmt); ok && strings.ReplaceAll(an.Str(is.Cond), " ", "") == "endtoken.typ==itemTernary" {
-				for _, call := range p.CallsIn(f, "(*jet.Template).newTernaryExpr") {
-					if len(call.Args) == 5 && an.Str(call.Args[2]) == "expression" && an.Str(call.Args[3]) == "left" && an.Str(call.Args[4]) == "right" {
+			is, ok := n.(*ast.IfStmt)
+			if !ok {
+				return true
+			}
+			b, isBin := an.Unparen(is.Cond).(*ast.BinaryExpr)
+			if !isBin || b.Op != token.EQL || an.Str(b.Y) != "itemTernary" {
+				return true
+			}
+			ast.Inspect(is.Body, func(m ast.Node) bool {
+				if call, ok := m.(*ast.CallExpr); ok && an.CalleeName(info, call) == "(*jet.Template).newTernaryExpr" && len(call.Args) == 5 {
+					c0, _ := defCall(call.Args[2])
+					c1, p1 := defCall(call.Args[3])
+					c2, p2 := defCall(call.Args[4])
+					if c0 == "(*jet.Template).logicalExpression" && c1 == "(*jet.Template).parseExpression" && c2 == "(*jet.Template).parseExpression" && p1 < p2 {
 						tern = true
 					}
 				}
-			}
+				return true
+			})
 			return true
 		})
 		c.Check(first == "(*jet.Template).logicalExpression" && nRec == 2 && tern, "C04.ladder", "(*Template).parseExpression", f.Pos(), "?: is the loosest level: condition from the logical level, both arms from the top (right-nesting)",
@@ -557,6 +623,8 @@ var mulOps = map[string]token.Token{"itemMul": token.MUL, "itemDiv": token.QUO, 
 func isRel(t token.Token) bool {
 	return t == token.GTR || t == token.GEQ || t == token.LSS || t == token.LEQ
 }
+var compoundOp = map[token.Token]token.Token{token.ADD_ASSIGN: token.ADD, token.SUB_ASSIGN: token.SUB, token.MUL_ASSIGN: token.MUL, token.QUO_ASSIGN: token.QUO, token.REM_ASSIGN: token.REM}
+
 func isArith(t token.Token) bool {
 	return t == token.MUL || t == token.QUO || t == token.REM || t == token.ADD || t == token.SUB
 }
@@ -584,6 +652,19 @@ func c04ops(c *an.Ctx) {
 					if b.Op != want {
 						wrong = append(wrong, fmt.Sprintf("%s (%s)", an.Str(b), p.RelPos(b.Pos())))
 					}
+				}
+				// compound assignments (r += b, n *= 2 …) are operations too: a result "corrected" after the
+				// operator was applied is no longer what the Go operator computes
+				if as, ok := m.(*ast.AssignStmt); ok {
+					if op, isCompound := compoundOp[as.Tok]; isCompound && class(op) {
+						cnt++
+						if op != want {
+							wrong = append(wrong, fmt.Sprintf("%s (%s)", an.StmtStr(as), p.RelPos(as.Pos())))
+						}
+					}
+				}
+				if inc, ok := m.(*ast.IncDecStmt); ok && class(token.ADD) {
+					wrong = append(wrong, fmt.Sprintf("%s (%s)", an.StmtStr(inc), p.RelPos(inc.Pos())))
 				}
 				return true
 			})
@@ -1043,4 +1124,106 @@ func c04lit(c *an.Ctx) {
 		c.Check(ok, "C04.lit", "(*NumberNode).simplifyComplex", f.Pos(), "integer views of a complex literal exist only when the float view does", "simplifyComplex can set IsInt/IsUint without IsFloat")
 	}
 	truthRule(c, "C04.lit")
+}
+
+// c04roles names the variables of the operator evaluators by what they hold, so that the rules below can
+// describe the code in one vocabulary whatever the variables are called: the receiver is "st", the node
+// parameter "node", the evaluated operands "left" and "right", the left operand's kind "kind", the float
+// promotion flag "needFloatPromotion", the +/- flag "isAdditive", the accumulated truth value "truthy",
+// the equality result "equal".
+func c04roles(c *an.Ctx) {
+	p := c.P
+	for _, name := range []string{"(*Runtime).evalNumericComparativeExpression", "(*Runtime).evalMultiplicativeExpression", "(*Runtime).evalAdditiveExpression",
+		"(*Runtime).evalLogicalExpression", "(*Runtime).evalComparativeExpression"} {
+		f := p.Fn(name)
+		if f == nil || f.Sig == nil {
+			continue
+		}
+		info := f.Info()
+		root := ast.Node(f.Decl)
+		if f.Sig.Recv() != nil {
+			an.SetRole(info, root, f.Sig.Recv(), "st")
+		}
+		var node types.Object
+		if f.Sig.Params().Len() >= 1 {
+			node = f.Sig.Params().At(0)
+			an.SetRole(info, root, node, "node")
+		}
+		operandOf := func(e ast.Expr) string { // eval(<node>.Left) → "left"
+			call, ok := an.Unparen(e).(*ast.CallExpr)
+			if !ok || !an.IsCallTo(info, call, "(*jet.Runtime).evalPrimaryExpressionGroup") || len(call.Args) != 1 {
+				return ""
+			}
+			sel, ok := an.Unparen(call.Args[0]).(*ast.SelectorExpr)
+			if !ok {
+				return ""
+			}
+			if id, ok := an.Unparen(sel.X).(*ast.Ident); !ok || an.ObjOf(info, id) != node {
+				return ""
+			}
+			switch sel.Sel.Name {
+			case "Left":
+				return "left"
+			case "Right":
+				return "right"
+			}
+			return ""
+		}
+		roleOf := map[types.Object]string{}
+		countCalls := func(e ast.Expr, callee string) int {
+			n := 0
+			ast.Inspect(e, func(m ast.Node) bool {
+				if call, ok := m.(*ast.CallExpr); ok && an.IsCallTo(info, call, callee) {
+					n++
+				}
+				return true
+			})
+			return n
+		}
+		for pass := 0; pass < 2; pass++ {
+			an.InspectBody(f, func(n ast.Node) bool {
+				an.Assigns(n, func(lhs, rhs ast.Expr, tok token.Token) {
+					id, ok := lhs.(*ast.Ident)
+					if !ok || rhs == nil || tok != token.DEFINE {
+						return
+					}
+					o := an.ObjOf(info, id)
+					if o == nil || roleOf[o] != "" {
+						return
+					}
+					switch {
+					case operandOf(rhs) != "":
+						roleOf[o] = operandOf(rhs)
+					case func() bool { // <left>.Kind()
+						call, ok := an.Unparen(rhs).(*ast.CallExpr)
+						if !ok || an.CalleeName(info, call) != "(reflect.Value).Kind" {
+							return false
+						}
+						rid, ok := an.Unparen(an.Receiver(call)).(*ast.Ident)
+						return ok && roleOf[an.ObjOf(info, rid)] == "left"
+					}():
+						roleOf[o] = "kind"
+					case countCalls(rhs, "jet.isFloat") >= 2:
+						roleOf[o] = "needFloatPromotion"
+					case func() bool {
+						b, ok := an.Unparen(rhs).(*ast.BinaryExpr)
+						return ok && b.Op == token.EQL && an.Str(b.Y) == "itemAdd"
+					}():
+						roleOf[o] = "isAdditive"
+					case func() bool {
+						call, ok := an.Unparen(rhs).(*ast.CallExpr)
+						return ok && an.IsCallTo(info, call, "jet.isTrue") && len(call.Args) == 1 && operandOf(call.Args[0]) == "left"
+					}():
+						roleOf[o] = "truthy"
+					case countCalls(rhs, "jet.checkEquality") == 1:
+						roleOf[o] = "equal"
+					}
+				})
+				return true
+			})
+		}
+		for o, r := range roleOf {
+			an.SetRole(info, root, o, r)
+		}
+	}
 }
